@@ -73,8 +73,13 @@ class Runner:
         if "end" in on: args += ["-e", "1700600000"]
         f = self.atlas()
         env = dict(f.env(), TMPDIR=tmp)
+        env_empty = False
         if "envkeys" in on:
             env.update(ATLAS_PUBLIC_KEY=self.sc.public, ATLAS_PRIVATE_KEY=self.sc.private)
+        elif idx % 3 == 1:
+            # "no key pair in the environment" spelled the way CI systems spell a secret that is not available: exported, but empty
+            env.update(ATLAS_PUBLIC_KEY="", ATLAS_PRIVATE_KEY="")
+            env_empty = True
         c0, l0 = len(f.connects), len(f.log)
         before = set(os.listdir(d))
         e = dict(os.environ)
@@ -94,8 +99,15 @@ class Runner:
                 before.add("stdin.log")
                 sin = open(sp, "rb")
                 kw = {"stdin": sin}
+            elif "stdin" in on and stdin_kind == "emptyfile":
+                sp = os.path.join(tmp, "..", "stdin.log")
+                open(sp, "wb").close()
+                before.add("stdin.log")
+                sin = open(sp, "rb")
+                kw = {"stdin": sin}
             elif "stdin" in on:
-                kw = {"input": self.data}
+                # a pipe is a pipe, whatever arrives through it: "emptypipe" is a producer that writes nothing
+                kw = {"input": b"" if stdin_kind == "emptypipe" else self.data}
             else:
                 kw = {"stdin": subprocess.DEVNULL}
             p = subprocess.run(cmd, cwd=d, env=e, capture_output=True, timeout=120, **kw)
@@ -113,7 +125,7 @@ class Runner:
                     changed.append(n)
             except OSError:
                 changed.append(n)
-        obs = {"on": sorted(on), "args": args, "stdin_kind": stdin_kind if "stdin" in on else "/dev/null", "rc": p.returncode, "stderr": p.stderr.decode("utf-8", "replace"), "stdout": p.stdout,
+        obs = {"on": sorted(on), "args": args, "stdin_kind": stdin_kind if "stdin" in on else "/dev/null", "empty_key_variables_exported": env_empty, "rc": p.returncode, "stderr": p.stderr.decode("utf-8", "replace"), "stdout": p.stdout,
                "new_files": new, "changed_files": changed, "tmp_left": sorted(os.listdir(tmp)),
                "connects": [c.get("target") or c.get("line") for c in f.connects[c0:]], "requests": len(f.log) - l0}
         out_file = None
@@ -162,7 +174,10 @@ def judge(v, obs, rl, expected_out, preexisting):
     on = set(obs["on"])
     rep = {k: (x if not isinstance(x, bytes) else x.decode("utf-8", "replace")[:1500]) for k, x in obs.items() if k != "events"}
     rep["rule"] = rl
-    sig_sw = ("+".join(obs["on"]) or "(none)") + (" [stdin < file]" if obs.get("stdin_kind") == "file" else "")
+    sig_sw = ("+".join(obs["on"]) or "(none)") + ({"file": " [stdin < file]", "emptyfile": " [stdin < empty file]", "emptypipe": " [stdin: a pipe nothing is written to]"}.get(obs.get("stdin_kind"), "")) \
+        + (" [ATLAS_*_KEY exported but empty]" if obs.get("empty_key_variables_exported") else "")
+    if str(obs.get("stdin_kind", "")).startswith("empty"):
+        expected_out = b""
     rejected = obs["rc"] != 0
     atlas_src = "proj" in on and "cluster" in on
     if rl == "reject" and not rejected:
@@ -254,7 +269,11 @@ def run(tier):
 
         def one_file(i):
             return i, R.run(recs[i]["on"], 100000 + i, stdin_kind="file")
-        results = common.parallel_map(one, order) + common.parallel_map(one_file, with_stdin)
+
+        def one_empty(i):
+            return i, R.run(recs[i]["on"], 200000 + i, stdin_kind="emptypipe" if i % 2 else "emptyfile")
+        with_empty = with_stdin if tier != "quick" else [i for i in with_stdin if recs[i]["rule"] != "reject"] + [i for i in with_stdin if recs[i]["rule"] == "reject"][:600]
+        results = common.parallel_map(one, order) + common.parallel_map(one_file, with_stdin) + common.parallel_map(one_empty, with_empty)
         for i, obs in results:
             rec = recs[i]
             v.count()
